@@ -107,7 +107,20 @@ def default_args(prj: Project, fi: FuncInfo, v: int):
         ann = fi.param_annotation(p)
         at = unparse(ann) if ann is not None else ""
         d = fi.param_default(p)
-        if "Measurement" in at and ("list" in at or "List" in at or "Iterable" in at or "Sequence" in at):
+        if "GithubRepository" in at or p == "repository":
+            try:
+                rc = prj.cls("codelimit.common.GithubRepository:GithubRepository")
+                args.append(MiniInterp(prj).construct(rc, ["own", "nam", "br"], {}, None, fi))
+            except Exception:
+                args.append(Sym(p, _open=True))
+        elif "ReportUnit" in at or p in ("report_units", "units"):
+            ru = prj.cls("codelimit.common.report.ReportUnit:ReportUnit")
+            m = measurement(v)
+            m.fields.setdefault("start", Sym("loc", line=7, column=3))
+            m.fields.setdefault("end", Sym("loc", line=7 + v, column=1))
+            unit = MiniInterp(prj).construct(ru, ["dir/file.py", m], {}, None, fi)
+            args.append([unit] if ("list" in at or "List" in at or "Iterable" in at or "Sequence" in at or p.endswith("s")) else unit)
+        elif "Measurement" in at and ("list" in at or "List" in at or "Iterable" in at or "Sequence" in at):
             args.append([measurement(v)])
         elif "Measurement" in at or p in ("m", "measurement"):
             args.append(measurement(v))
